@@ -106,6 +106,25 @@ class FieldUse:
                                 self.reftemps[s['pl']['l']] = f2
                 elif s['k'] in ('mention', 'fakeread'):
                     pass
+        # reborrows and plain moves of such a reference designate the same field (`&mut *tmp`, two-phase borrows)
+        changed = True
+        while changed:
+            changed = False
+            for bb, b in enumerate(fn.blocks):
+                if b['cleanup']:
+                    continue
+                for s in b['stmts']:
+                    if s['k'] != 'assign' or s['pl']['p'] or s['pl']['l'] in self.reftemps:
+                        continue
+                    rv = s['rv']
+                    src = None
+                    if rv['k'] == 'ref' and rv['pl']['p'] and all(p['k'] == 'deref' for p in rv['pl']['p']):
+                        src = rv['pl']['l']
+                    elif rv['k'] == 'use' and rv['op']['k'] in ('copy', 'move') and not rv['op']['pl']['p']:
+                        src = rv['op']['pl']['l']
+                    if src is not None and src in self.reftemps and fn.local_ty(s['pl']['l']).strip().startswith('&'):
+                        self.reftemps[s['pl']['l']] = self.reftemps[src]
+                        changed = True
         for bb, t in fn.calls():
             if fn.blocks[bb]['cleanup']:
                 continue
